@@ -41,7 +41,8 @@ def run(ck):
                "byte by byte, oversized and overlong remaining lengths, really sent packets at the 1/2/3/4-byte length boundaries and around the 8 MiB read "
                "limit, raw encodings the library refuses to produce: empty / NUL / wildcard / '$' / 64 KiB / 32767-level topics and filters, invalid "
                "filters then publishes along them, QoS 3, id 0, duplicate and maximal ids, every out-of-protocol packet first and after CONNECT, random "
-               "sequences, unsolicited PUBACK / PUBCOMP / PUBREC on fresh connections followed by a PINGREQ (unsolicited_acks_harmless), anonymous clients, connect/disconnect storms, a non-acknowledging catch-all subscriber) next to four witness clients (one "
+               "sequences, unsolicited PUBACK / PUBCOMP / PUBREC on fresh connections followed by a PINGREQ (unsolicited_acks_harmless), the same followed by QoS 0 deliveries and two takeovers (stray_acks_harmless), witnesses with a 1 s token "
+               "timeout whose window is filled by another client's bursts before and after silences of 1.4 token timeouts (witness_window_idle), anonymous clients, connect/disconnect storms, a non-acknowledging catch-all subscriber) next to four witness clients (one "
                "anonymous) exchanging numbered traffic: witness_connected, witness_traffic, witness_order, witness_probe (QoS 2, new subscription, ping "
                "afterwards), offender_closed for 30 definite protocol violations; a publisher parked behind a stalled subscriber's full queue released "
                "when that subscriber closes / disconnects / runs into the token timeout, clean and persistent (publisher_released); silent peers "
